@@ -155,7 +155,7 @@ func TestVerifC18(t *testing.T) {
 			// N is capped, and fault-free counts below the cap are reproducible, so every worker
 			// builds the same list
 			N := 12
-			msgs := []c18Msg{{}}
+			msgs := []c18Msg{{}, {ReqBody: 3}, {RespBody: 3}, {Conc: 1}, {Kind: 1}, {ReqTr: 1}, {RespTr: 1}, {Gzip: 1}}
 			if e.Thorough() {
 				N = 30
 				msgs = c18Deviations(1, map[string]bool{"abort": true})
@@ -174,7 +174,7 @@ func TestVerifC18(t *testing.T) {
 					cases = append(cases, c)
 				}
 			}
-			return cases, fmt.Sprintf("every fault map with exactly 2 non-default fates %v among the first %d datagrams of each direction (all datagrams when the exchange has fewer) of %d message(s) (default; thorough: every <= 1-dimension deviation, aborts excluded)", c18Fates, N, len(msgs))
+			return cases, fmt.Sprintf("every fault map with exactly 2 non-default fates %v among the first %d datagrams of each direction (all datagrams when the exchange has fewer) of %d message(s) (quick: default, 16 kB request body, 16 kB response body, 4 concurrent requests, Chrome_115 client, request trailers, response trailers, gzip; thorough: every <= 1-dimension deviation, aborts excluded)", c18Fates, N, len(msgs))
 		}),
 		{
 			Name: "raw",
